@@ -244,28 +244,32 @@ void StrPrinter::bvisit(const ComplexDouble &x)
 void StrPrinter::bvisit(const Equality &x)
 {
     std::ostringstream s;
-    s << apply(x.get_arg1()) << " == " << apply(x.get_arg2());
+    s << parenthesizeLE(x.get_arg1(), PrecedenceEnum::Relational) << " == "
+      << parenthesizeLE(x.get_arg2(), PrecedenceEnum::Relational);
     str_ = s.str();
 }
 
 void StrPrinter::bvisit(const Unequality &x)
 {
     std::ostringstream s;
-    s << apply(x.get_arg1()) << " != " << apply(x.get_arg2());
+    s << parenthesizeLE(x.get_arg1(), PrecedenceEnum::Relational) << " != "
+      << parenthesizeLE(x.get_arg2(), PrecedenceEnum::Relational);
     str_ = s.str();
 }
 
 void StrPrinter::bvisit(const LessThan &x)
 {
     std::ostringstream s;
-    s << apply(x.get_arg1()) << " <= " << apply(x.get_arg2());
+    s << parenthesizeLE(x.get_arg1(), PrecedenceEnum::Relational) << " <= "
+      << parenthesizeLE(x.get_arg2(), PrecedenceEnum::Relational);
     str_ = s.str();
 }
 
 void StrPrinter::bvisit(const StrictLessThan &x)
 {
     std::ostringstream s;
-    s << apply(x.get_arg1()) << " < " << apply(x.get_arg2());
+    s << parenthesizeLE(x.get_arg1(), PrecedenceEnum::Relational) << " < "
+      << parenthesizeLE(x.get_arg2(), PrecedenceEnum::Relational);
     str_ = s.str();
 }
 
